@@ -13,6 +13,7 @@ import (
 	"os"
 	"strconv"
 	"strings"
+	"sync"
 	"time"
 
 	"go.amzn.com/lambda/core/statejson"
@@ -44,6 +45,10 @@ type InteropServer interface {
 }
 
 var initDone bool
+
+// initMutex serialises the one-off initialisation: InvokeHandler runs once per HTTP request, and two
+// requests arriving at cold start must not both initialise the sandbox
+var initMutex sync.Mutex
 
 func GetenvWithDefault(key string, defaultValue string) string {
 	envValue := os.Getenv(key)
@@ -101,6 +106,7 @@ func InvokeHandler(w http.ResponseWriter, r *http.Request, sandbox Sandbox, bs i
 	functionVersion := GetenvWithDefault("AWS_LAMBDA_FUNCTION_VERSION", "$LATEST")
 	memorySize := GetenvWithDefault("AWS_LAMBDA_FUNCTION_MEMORY_SIZE", "3008")
 
+	initMutex.Lock()
 	if !initDone {
 
 		initStart, initEnd := InitHandler(sandbox, functionVersion, timeout, bs)
@@ -114,6 +120,7 @@ func InvokeHandler(w http.ResponseWriter, r *http.Request, sandbox Sandbox, bs i
 		// Set initDone so next invokes do not try to Init the function again
 		initDone = true
 	}
+	initMutex.Unlock()
 
 	invokeStart := time.Now()
 	invokePayload := &interop.Invoke{
